@@ -421,8 +421,8 @@ def load_findings():
 # ---------------------------------------------------------------------------
 
 QUICK_UNIT_MAX_S = 150      # an obligation measured slower than this (on a loaded 16-core box) is thorough-only
-QUICK_BUDGET_CPU_S = 2400   # summed measured time of a property's quick tier (~4 min wall at -j 12)
-QUICK_MAX_UNITS = 48        # kani-compiler generates code for the harnesses one after the other (~4 s each)
+QUICK_BUDGET_CPU_S = 2000   # summed measured time of a property's quick tier (~4 min wall at -j 12)
+QUICK_MAX_UNITS = 36        # kani-compiler generates code for the harnesses one after the other (~4 s each)
 
 
 def measured_times():
